@@ -103,6 +103,16 @@ def pair_oracle(run, cols, A, B, cache, via_fit=False):
         run.failing(SITE, key, f"after {canon(A)} then {canon(B)}"
                     f"{' (through fit_model)' if via_fit else ''}: {why}",
                     payload=payload, observed=why, theorem=thm)
+    # independently of any reference curve: a list that names an unknown
+    # step or puts a step before one it requires is refused (declared
+    # requirements, as restated for C14)
+    from . import c14
+    _ids, _req, _opt = c14._tables()
+    declared = c14.decl_apply_ok(list(B[0]), _req)
+    if declared != "ok" and outB == "ok":
+        fail(f"the request is accepted although the declared requirements "
+             f"refuse it ({declared})", "C06_rejected_again")
+        return
     if (outB == "ok") != (refB[0] == "ok") and not via_fit:
         fail(f"outcome {outB} but a fresh curve gives {refB[0]}",
              "C06_execute_or_skip")
